@@ -3,10 +3,13 @@
 EXTENDS Recursor, RecursorNets
 
 MC_Quick == HostileParams({"in", "sib-noglue", "out", "lame"}, MModes, {"a", "cname-out", "loop2", "none"})
-            \cup FilterParams(LModes, {"in", "sib-noglue"}, {"a", "cname-in", "cname-out"})
-MC_All   == HostileParams(LModes, MModes, TModes) \cup FilterParams(LModes, MModes, TModes)
+            \cup FilterParams({"in", "sib-noglue", "out", "self"}, {"in", "sib-noglue"}, {"a", "cname-in", "cname-out"})
+            \cup V6Params \cup TreeParams({"tree22", "tree23"})
+MC_All   == HostileParams(LModes, MModes, TModes) \cup FilterParams(LModes, MModes, TModes) \cup V6Params
+            \cup TreeParams(TreeModes)
 \* the counterexample to the "asis" rule: l.t1 is served by a name under the other TLD, whose
 \* zone's server adds an address record with a foreign owner to the answers it gives for addresses
 MC_AsIsWitness ==
-    {<<"out", "in", "a", {[ip |-> "a6", sec |-> "an", when |-> "A", r |-> A(H("w", L1), Evil)]}, {}, {}>>}
+    {P("out", "in", "a", {[ip |-> "a6", sec |-> "an", when |-> "A", qn |-> <<"*">>, r |-> A(H("w", L1), Evil)]},
+       NoFilter, NoFilter, "v4")}
 =============================================================================
